@@ -27,15 +27,16 @@ type ParamRange struct {
 }
 
 type HarnessSpec struct {
-	Pkg      string
-	Name     string
-	Quick    []ParamRange
-	Thorough []ParamRange
-	Filter   func(p map[string]int) bool
-	Reach    []string // vReach tags that must be hit by at least one job (vacuity guard)
+	Pkg           string
+	Name          string
+	Quick         []ParamRange
+	Thorough      []ParamRange
+	Filter        func(p map[string]int) bool
+	Reach         []string // vReach tags that must be hit by at least one job (vacuity guard)
 	ReachThorough []string // additional tags required in the thorough tier
-	Desc     string
-	MaxVisits int
+	Desc          string
+	MaxVisits     int
+	Eager         bool // settle branch feasibility at every fork instead of lazily (smaller terms for tokenizer-heavy harnesses)
 }
 
 type ProbeSpec struct {
@@ -184,11 +185,11 @@ type checker struct {
 	only    string
 	solver  string
 
-	env     *env
-	world   *exec.World
-	results []*exec.JobResult
-	lines   []string
-	reason  []string // reasons for inconclusive
+	env        *env
+	world      *exec.World
+	results    []*exec.JobResult
+	lines      []string
+	reason     []string // reasons for inconclusive
 	violations int
 	knownHits  map[string]bool
 	probePairs int
@@ -263,7 +264,7 @@ func (c *checker) run() int {
 		go func() {
 			defer wg.Done()
 			for i := range ch {
-				results[i] = w.RunJob(jobs[i].spec, exec.JobOpts{Solver: c.solver, TimeoutMS: 60000, MaxVisits: jobs[i].h.MaxVisits})
+				results[i] = w.RunJob(jobs[i].spec, exec.JobOpts{Solver: c.solver, TimeoutMS: 60000, MaxVisits: jobs[i].h.MaxVisits, Eager: (jobs[i].h.Eager || os.Getenv("SYMGO_EAGER") == "1") && os.Getenv("SYMGO_EAGER") != "0"})
 			}
 		}()
 	}
@@ -442,6 +443,9 @@ func (c *checker) run() int {
 					c.inconclusive("translator validation: engine cannot run %s: %s", cs.Probe, firstLine(err.Error()))
 					bad++
 					break
+				}
+				if got == "CUT" {
+					continue
 				}
 				want := natives[i]
 				if strings.HasPrefix(want, "OK:") {
